@@ -62,8 +62,19 @@ float64 = dtype_("float64", 8, True)
 complex64 = dtype_("complex64", 9, True)
 
 
+def norm_dtype(dt):
+    """python builtins used as dtypes (torch accepts bool / int / float)"""
+    if dt is builtins.bool:
+        return bool_
+    if dt is builtins.int:
+        return int64
+    if dt is builtins.float:
+        return float32
+    return dt
+
+
 def _isf(dt):
-    return dt.is_floating_point
+    return norm_dtype(dt).is_floating_point
 
 
 def promote(a, b):
@@ -95,6 +106,7 @@ def result_dtype(tdt, other):
 
 
 def cast_scalar(x, dt):
+    dt = norm_dtype(dt)
     if dt is bool_:
         return s_truth(x)
     if _isf(dt):
@@ -179,7 +191,7 @@ class Tensor:
 
     def __init__(self, arr, dtype):
         self.a = _obj(arr)
-        self.dtype = dtype
+        self.dtype = norm_dtype(dtype)
         self.requires_grad = False
         self.grad_fn = None
 
@@ -234,7 +246,7 @@ class Tensor:
 
     def to(self, *a, **k):
         for x in a:
-            if isinstance(x, dtype_):
+            if isinstance(x, dtype_) or x is builtins.bool or x is builtins.int or x is builtins.float:
                 return self._cast(x)
             if isinstance(x, Tensor):
                 return self._cast(x.dtype)
@@ -249,6 +261,7 @@ class Tensor:
         return self._cast(o.dtype)
 
     def _cast(self, dt):
+        dt = norm_dtype(dt)
         if dt is self.dtype:
             return self
         return Tensor(_u(lambda x: cast_scalar(x, dt), 1)(self.a), dt)
@@ -1342,19 +1355,20 @@ def _mk(shape, fill, dt):
 DEFAULT_FLOAT = float32
 
 
-def zeros(*shape, dtype=None, device=None, requires_grad=False, out=None):
-    return _mk(_shape_args(shape), 0, dtype or float32)
+def zeros(*shape, size=None, dtype=None, device=None, requires_grad=False, out=None):
+    return _mk(_shape_args(shape if size is None else (size,)), 0, dtype or float32)
 
 
-def ones(*shape, dtype=None, device=None, requires_grad=False):
-    return _mk(_shape_args(shape), 1, dtype or float32)
+def ones(*shape, size=None, dtype=None, device=None, requires_grad=False):
+    return _mk(_shape_args(shape if size is None else (size,)), 1, dtype or float32)
 
 
-def empty(*shape, dtype=None, device=None, **k):
-    return _mk(_shape_args(shape), 0, dtype or float32)
+def empty(*shape, size=None, dtype=None, device=None, **k):
+    return _mk(_shape_args(shape if size is None else (size,)), 0, dtype or float32)
 
 
-def full(shape, fill, dtype=None, device=None, **k):
+def full(size=None, fill_value=None, dtype=None, device=None, **k):
+    shape, fill = size, fill_value
     if isinstance(fill, Tensor):
         fill = fill.a.reshape(-1)[0]
     if isinstance(shape, _pyint):
@@ -1748,7 +1762,9 @@ bmm = mm = matmul
 
 
 def einsum(eq, *ops):
-    raise Unsupported("einsum " + eq)
+    from . import einops_
+
+    return einops_.torch_einsum(eq, *ops)
 
 
 def diag_embed(t, offset=0, dim1=-2, dim2=-1):
